@@ -16,6 +16,12 @@
   R6 duration stores (lower bounds): mdhd.duration is stored as old + sample.duration; tkhd.duration as old + f(duration,
      movie timescale, track timescale); the writer's movie duration as max(old, track duration); mvhd.duration/timescale
      are copied from those writer fields in write_end.
+  R7 dimension typing of the muxer's table bookkeeping (rules/units.py): what is stored into each table field is the
+     quantity ISO gives that field - sample numbers into stss / first_sample, chunk numbers into first_chunk, counts into
+     sample_count, media ticks into stts deltas and mdhd.duration, movie ticks (media ticks x movie timescale / media
+     timescale) into tkhd / mvhd durations - and no operation combines incompatible quantities.
+  R8 no header field of the output is narrower than the value stored in it (C13 R-CAST / R-STCO instances): a duration or
+     offset truncated on write no longer equals the sum the statement demands.
 Not decided: numeric table totals, "within one tick", strict monotonicity of sync numbers.
 """
 import c04
@@ -32,6 +38,7 @@ from packs_common import muxer_entries, io_fallible_set, IO_TRAITS
 from panicfree import fn_short
 from report import site_of
 
+UNITS_FLOOR = 52      # dimension checks counted on the pinned tree in the muxer bookkeeping
 WRITE_TRAITS = ("std::io::Write", "std::io::Seek", "byteorder::io::WriteBytesExt")
 
 
@@ -233,6 +240,28 @@ def run(fx, chk, tier):
                 stores.setdefault(e["field"], set()).add(e["val"])
     chk.require(stores.get("timescale") == {"$1.timescale"} and stores.get("duration") == {"$1.duration"}, "R6", "mvhd", "mvhd.timescale/duration copied from the writer",
                 "mvhd.timescale / mvhd.duration are not copied from the writer's fields in write_end (%s)" % {k: sorted(v) for k, v in stores.items()}, site_of(we))
+    # ---------------- R7
+    import units
+    chk.rule("R7", "every store into a sample-table / header field and every operation of the muxer's bookkeeping combines dimensionally compatible quantities")
+    units.run_rule(fx, chk, "R7", units.MUXER_ENTRIES, regions=(None,), widths=False, floor=UNITS_FLOOR, what="in the muxer bookkeeping")
+    # ---------------- R8 (instances owned by C13)
+    chk.rule("R8", "no stored duration / offset is truncated by a narrower wire field (C13 R-CAST, R-STCO instances)")
+    import report
+    s13 = report.Check("C13")
+    s13.finish = lambda *a, **k: 0
+    c13.run(fx, s13, tier)
+    n8 = 0
+    for o in s13.obligations:
+        r = o["rule"].split(".floor")[0].split(".anchor")[0]
+        if r not in ("R-CAST", "R-STCO"):
+            continue
+        n8 += 1
+        key = "C13:%s|%s" % (o["rule"], o["key"])
+        if o["ok"]:
+            chk.ok("R8", key, o["how"], o["site"])
+        else:
+            chk.bad("R8", key, o["how"], o["site"], o.get("detail"))
+    chk.floor("R8", "narrowing obligations", n8, 10)
     return chk.finish(
         "other",
         "Sizes of the %d encoders reachable from the muxer are compared with their layouts in every shape cell; ordering, who-may-write and prologue/patch pairing are dominance and call-graph rules over the muxer closure. "
